@@ -70,35 +70,46 @@ opaque!(SerializedValue);
 opaque!(VersionedMessage);
 opaque!(ConnectionEvent);
 opaque!(BrokerHandle);
-opaque!(Object);
-opaque!(Service);
 opaque!(ServiceInfo);
 opaque!(ObjectId);
-opaque!(PendingFunctionCall);
 opaque!(State);
 
-#[verifier::external_body]
+// ProtocolVersion: (major, minor); the ordering used by the version gates is left OPAQUE here (gates are C12's
+// subject), so every handler contract in these units holds for either outcome of a version comparison.
 #[derive(Clone, Copy)]
-pub struct ProtocolVersion { _p: () }
+pub struct ProtocolVersion { pub major: u32, pub minor: u32 }
+impl ProtocolVersion {
+    pub const V1_16: Self = Self { major: 1, minor: 16 };
+    pub const V1_19: Self = Self { major: 1, minor: 19 };
+}
+impl PartialEq for ProtocolVersion {
+    #[verifier::external_body]
+    fn eq(&self, other: &Self) -> (r: bool) { unimplemented!() }
+}
+impl PartialOrd for ProtocolVersion {
+    #[verifier::external_body]
+    fn partial_cmp(&self, other: &Self) -> (r: Option<core::cmp::Ordering>) { unimplemented!() }
+}
 #[verifier::external_body]
 #[verifier::reject_recursive_types(T)]
 pub struct UnboundedSender<T> { _p: core::marker::PhantomData<T> }
 #[verifier::external_body]
 #[verifier::reject_recursive_types(T)]
 pub struct Receiver<T> { _p: core::marker::PhantomData<T> }
-#[verifier::external_body]
-#[verifier::reject_recursive_types(T)]
-pub struct SerialMap<T> { _p: core::marker::PhantomData<T> }
 
 impl State {
     #[verifier::external_body]
     pub fn push_remove_conn(&mut self, id: ConnectionId, now: bool) { unimplemented!() }
+    #[verifier::external_body]
+    pub fn push_abort_function_call(&mut self, callee_serial: u32, callee_id: ConnectionId) { unimplemented!() }
 }
 
 pub mod trusted {
     use super::*;
     pub broadcast axiom fn axiom_conn_id_key_model() ensures #[trigger] obeys_key_model::<ConnectionId>();
     pub broadcast axiom fn axiom_channel_cookie_key_model() ensures #[trigger] obeys_key_model::<ChannelCookie>();
+    pub broadcast axiom fn axiom_object_uuid_key_model() ensures #[trigger] obeys_key_model::<ObjectUuid>();
+    pub broadcast axiom fn axiom_svc_key_model() ensures #[trigger] obeys_key_model::<(ObjectUuid, ServiceUuid)>();
     pub broadcast axiom fn axiom_bl_cookie_key_model() ensures #[trigger] obeys_key_model::<BusListenerCookie>();
     pub broadcast axiom fn axiom_filter_key_model() ensures #[trigger] obeys_key_model::<BusListenerFilter>();
     // ConnectionId: two handles denote the same connection iff their numeric ids are equal (conn_id.rs: Eq, Hash and
@@ -108,32 +119,13 @@ pub mod trusted {
 }
 broadcast use {
     trusted::axiom_conn_id_key_model, trusted::axiom_channel_cookie_key_model, trusted::axiom_conn_id_injective,
-    trusted::axiom_bl_cookie_key_model, trusted::axiom_filter_key_model,
+    trusted::axiom_bl_cookie_key_model, trusted::axiom_filter_key_model, trusted::axiom_object_uuid_key_model,
+    trusted::axiom_svc_key_model,
     vstd::std_specs::hash::group_hash_axioms,
 };
 
 pub assume_specification<T>[ std::mem::replace::<T> ](dest: &mut T, src: T) -> (r: T)
     ensures *final(dest) == src, r == *old(dest);
 
-// std HashMap::get_mut has no vstd specification; ASSUMED contract (std semantics), same text as in broker_service.
-pub assume_specification<'a, K: Eq + Hash + std::borrow::Borrow<Q>, V, S: std::hash::BuildHasher, A: std::alloc::Allocator, Q: Hash + Eq + ?Sized>[ HashMap::<K, V, S, A>::get_mut::<Q> ](m: &'a mut HashMap<K, V, S, A>, k: &Q) -> (r: Option<&'a mut V>)
-    ensures
-        obeys_key_model::<K>() && builds_valid_hashers::<S>() ==> {
-            match r {
-                Some(v) => {
-                    &&& contains_borrowed_key(old(m)@, k)
-                    &&& maps_borrowed_key_to_value(old(m)@, k, *v)
-                    &&& final(m)@.dom() == old(m)@.dom()
-                    &&& maps_borrowed_key_to_value(final(m)@, k, *final(v))
-                    &&& forall|key: K| #![auto] old(m)@.contains_key(key)
-                            && !contains_borrowed_key(Map::<K, ()>::empty().insert(key, ()), k)
-                            ==> final(m)@[key] == old(m)@[key]
-                }
-                None => {
-                    &&& !contains_borrowed_key(old(m)@, k)
-                    &&& final(m)@ == old(m)@
-                }
-            }
-        },
-;
+//@include _shared/std_get_mut_spec.rs
 
